@@ -250,7 +250,7 @@ func runProp(t *testing.T, id string) {
 	start := time.Now()
 	curT = t
 	fams := p.Families(mc.Tier())
-	reports := make([]*mc.Report, len(fams))
+	reports := make([]*mc.Report, 2*len(fams))
 	errs := make([]string, len(fams))
 	per := workers() / len(fams)
 	if per < 1 {
@@ -270,11 +270,22 @@ func runProp(t *testing.T, id string) {
 				return
 			}
 			defer stop()
+			if f.Bounds.NoCrashFirst && !f.Bounds.NoCrash {
+				b1 := f.Bounds
+				b1.NoCrash, b1.CrashAfterStore = true, false
+				reports[len(fams)+i] = mc.BFS(f.Name+"#plain-pass", run, b1)
+			}
 			reports[i] = mc.BFS(f.Name, run, f.Bounds)
 		}(i, f)
 	}
 	wg.Wait()
-	finish(t, p, reports, errs, time.Since(start))
+	var all []*mc.Report
+	for _, r := range reports {
+		if r != nil {
+			all = append(all, r)
+		}
+	}
+	finish(t, p, all, errs, time.Since(start))
 }
 
 func tail(s string, n int) string {
